@@ -520,6 +520,7 @@ def write_if_changed(path, text):
                 return False
     except FileNotFoundError:
         pass
+    os.makedirs(os.path.dirname(os.path.abspath(path)), exist_ok=True)   # coq/Gen/ holds only the generated file, so a clone lacks it
     tmp = path + ".tmp.%d" % os.getpid()
     with open(tmp, "w", encoding="utf-8") as f:
         f.write(text)
